@@ -448,6 +448,10 @@ class Sim:
             return ('fnref', n['q'])
         if sc in ('param', 'local', 'static_local', 'tls_local'):
             p = ('var', n['did'], n['name'])
+            if self.cur_fn is not None and self.cur_fn.get('kind') == 'lambda':
+                snap = self.store.get(('closure', self.cur_fn['key']))
+                if snap and n['did'] in snap:
+                    return snap[n['did']]          # the copy made when the closure was created, not the variable's current value
         else:
             p = ('global', n.get('q', n['name']))
         if n.get('isref'):
@@ -609,6 +613,15 @@ class Sim:
         return ('initlist', items, n.get('type', ''))
 
     def ev_lambda(self, n):
+        # by-copy captures: the closure keeps the values the variables have now
+        snap = {}
+        for bc in n.get('by_copy', []):
+            pth = ('var', bc['did'], bc['name'])
+            if pth in self.store:
+                snap[bc['did']] = self.store[pth]
+        if n.get('by_copy'):
+            self.store[('closure', n['fn'])] = snap
+            self.event({'kind': 'lambda_create', 'fn': n['fn'], 'by_copy': [(bc['did'], bc['name']) for bc in n['by_copy']], 'line': n.get('line')})
         for ic in n.get('init_captures', []):
             x = self.ev(ic['init'])
             pth = ('var', ic['did'], ic['name'])
@@ -1197,6 +1210,8 @@ class Sim:
             elif visits[bid] == 1:
                 first_visit_mark[bid] = len(self.writes)
                 first_vals[bid] = dict(self.store)
+            elif visits[bid] <= self.eng.max_header_visits and self.eng.unroll:
+                pass           # unrolling: the values computed so far are kept as they are
             elif visits[bid] <= self.eng.max_header_visits:
                 # invariants assumed at the previous widening must be preserved by the iteration just analysed (inductive step)
                 failed = False
@@ -1361,6 +1376,8 @@ class Sim:
         self.cur_fn = fn
         for p in fn['params']:
             path = ('var', p['did'], p['name'])
+            if path in self.store:
+                continue                 # bound by the caller of paths() (e.g. a reference parameter aliased to *this)
             if p.get('isref'):
                 self.store[path] = S('&' + p['name'])
             else:
@@ -1380,10 +1397,11 @@ class Sim:
 
 
 class Engine:
-    def __init__(self, facts, max_paths=4000, max_header_visits=2):
+    def __init__(self, facts, max_paths=4000, max_header_visits=2, unroll=False):
         self.facts = facts
         self.max_paths = max_paths
         self.max_header_visits = max_header_visits
+        self.unroll = unroll       # loops are followed concretely (no widening) up to max_header_visits visits of a header
         self.noninductive = 0      # paths dropped because an inferred loop invariant was not preserved
         self.inv_blacklist = set() # (function, loop header, location, template) of candidates found not to be inductive
         self.inv_retry = False
